@@ -123,8 +123,7 @@ Lemma analyze_assemble : forall pfuel cfuel files root a,
 Proof.
   intros pfuel cfuel files root a A. unfold analyze in A.
   set (parsed := map (fun pt => parse_file pfuel (components (fst pt)) (snd pt)) files) in *.
-  destruct (Includes.assign Includes.fs_init (components root)) as [rid fs1].
-  destruct (Includes.set_root_file _ _ _ _ _) as [[fs2 db2]| |]; try discriminate.
+  destruct (Host.touch _ _ _ _ _) as [[fs2 db2]| |]; try discriminate.
   destruct (Includes.sroot db2) as [[fset rt]|]; try discriminate.
   set (ids := sort_ids (map fst fset)) in *.
   destruct (all_some _) as [wsf|] eqn:AS; try discriminate. inversion A; subst a. clear A.
